@@ -64,6 +64,14 @@ def gen_cases(ctx):
                           fkind='module', kwargs={}, schedule=dict(priority=list(range(n)), hold=True, hold_ms=600, quiet_ms=15,
                                                                    expect_draws=nw, expect_busy=nw, hold_max_ms=20000),
                           demand=['N*'], label='withheld', timeout=90))
+    # a trace function is installed (debugger, coverage, profiler): parallel stays parallel
+    for _ in range(2 if ctx.quick else 6):
+        cfg = dict(nworkers=rng.choice([2, 3]), extracache=rng.choice([0, 1]), skipNone=True, maxtasksperchild=None)
+        n = rng.choice([4, 6, 9])
+        cases.append(dict(cfg=cfg, n=n, tail=None, table=[['u']] * n, fkind='module', kwargs={}, tracer_active=True,
+                          schedule=dict(priority=list(range(n)), hold=True, hold_ms=250, quiet_ms=15,
+                                        expect_draws=min(n, cfg['nworkers'] + cfg['extracache']), expect_busy=min(n, cfg['nworkers'])),
+                          demand=['N*'], label='withheld'))
     # an element that takes seconds: the bound knows no clock — however long the consumer waits for the oldest result, nothing beyond the
     # window is drawn
     for _ in range(1 if ctx.quick else 3):
@@ -94,6 +102,7 @@ def judge(ctx, case, res, mout):
     par = case['cfg']['nworkers'] > 0
     small = {k: case.get(k) for k in ('cfg', 'n', 'tail', 'fkind', 'kwargs', 'schedule', 'demand', 'label', 'prior_n', 'pre_model')}
     small['table'] = case['table'] if case['n'] <= 40 else {'periodic_prefix': case['table'][:14], 'n': case['n']}
+    pipelib.carry_flags(small, case)
     cl = case['cfg']['nworkers'] + case['cfg']['extracache']
     ctx.case((case['cfg'], small['table'], case['demand'], case.get('schedule')),
              (cl >= 2 and any(r['kind'] == 'value' and r['draws'] < case['n'] for r in res['reads'])) or case['label'] == 'withheld',
